@@ -48,7 +48,7 @@ End C04.
 (* non-vacuity: three callers on limit 1, a schedule in which the second and third are refused *)
 Example c04_example :
   let pool := [Caller RunOk FbNone GStart; Caller RunErr FbOk GStart; Caller RunPanic FbNone GStart] in
-  let '(tr, fin, ok) := replay gstep1 [0;0;0;1;2;1;2;1;0;0]%nat (ginit 1 1 false) pool in
+  let '(tr, fin, ok) := replay gstep1 [0;0;0;1;2;1;2;1;0]%nat (ginit 1 1 false) pool in
   ok = true /\ cnt run_inflight (snd fin) = 0 /\ cnt holds_run (snd fin) = 2 /\ g_cmds (fst fin) = 2.
 Proof. vm_compute. repeat split. Qed.
 
